@@ -146,15 +146,20 @@ func ovFixture(fams [][]int) string {
 		}
 		if ovOpFamily(f) {
 			fmt.Fprintf(&b, "type O%s struct{}\n", n)
-			for i, s := range f {
+			// (methods are declared in reverse index order: the order of a family is the order of its indices, not of its declarations)
+			for i := len(f) - 1; i >= 0; i-- {
+				s := f[i]
 				b.WriteString(ovFuncDecl(fmt.Sprintf("(O%s) ", n), fmt.Sprintf("XGo_Add__%s", ovIdx(i)), ovSigs[s], fmt.Sprintf("R%d", i), false))
 			}
 		}
 		fmt.Fprintf(&b, "type V%s struct{}\ntype P%s struct{}\n", n, n)
 		var im []string
-		for i, s := range f {
+		for i := len(f) - 1; i >= 0; i-- {
+			s := f[i]
 			b.WriteString(ovFuncDecl(fmt.Sprintf("(V%s) ", n), fmt.Sprintf("M__%s", ovIdx(i)), ovSigs[s], fmt.Sprintf("R%d", i), false))
 			b.WriteString(ovFuncDecl(fmt.Sprintf("(*P%s) ", n), fmt.Sprintf("M__%s", ovIdx(i)), ovSigs[s], fmt.Sprintf("R%d", i), false))
+		}
+		for i, s := range f {
 			im = append(im, ovFuncDecl("", fmt.Sprintf("M__%s", ovIdx(i)), ovSigs[s], fmt.Sprintf("R%d", i), true))
 		}
 		fmt.Fprintf(&b, "type I%s interface {\n\t%s\n}\n", n, strings.Join(im, "\n\t"))
